@@ -330,7 +330,7 @@ impl Universe {
             text: text.into(),
             real_payload: real,
         };
-        for t in ["a.c", "abc", "Foo", "", "a<b&c", "xfoox", "A.C"] {
+        for t in ["a.c", "abc", "Foo", "", "a<b&c", "xfoox", "A.C", "xbaz", "foo x"] {
             um.push(d("ECU1", true, t, false));
         }
         um.push(d("ECU1", false, "a.c", false));
@@ -1406,6 +1406,10 @@ pub fn variants(level: u8) -> Vec<Vec<Crit>> {
             sub("a.c", false),
             sub("A.C", true),
             sub("<b&", false),
+            // texts that begin / end with a blank (a front-end must not trim them)
+            sub("foo ", false),
+            sub(" baz", false),
+            sub(" BAZ", true),
             pre("fo+|BAZ", false),
             pre("fo+|BAZ", true),
             pre("^bar\\sbaz$", false),
